@@ -710,6 +710,11 @@ class CGenerator:
             else:
                 file_to_preserve = os.path.join(preserve_dir, filename_nopath)
             preservation = Preservative(file_to_preserve)
+            if file_to_preserve in preservation.unreadable_files:
+                # Its user code could not be collected : overwriting it would drop that code. Leave it untouched.
+                error("'" + file_to_preserve + "' could not be read back and is NOT regenerated (it is left untouched).")
+                del codemodel.filenames_to_lines[filename_nopath]
+                continue
             # The code preserved from a file belongs to that file only (not to every file whose name it contains).
             single = OrderedDict([(filename_nopath, codemodel.filenames_to_lines[filename_nopath])])
             preservation.Emplace(single)
